@@ -74,7 +74,7 @@ def death_signature(rc, stderr_text):
     for line in stderr_text.split("\n"):
         line = line.strip()
         if line.startswith("github.com/pentops/j5/") and "/internal/verifh/" not in line and ".Verif" not in line:
-            name = line.split("(")[0] if "(" in line else line
+            name = re.sub(r"\([^()]*\)$", "", line)  # drop the argument list only
             name = re.sub(r"\.func\d+(\.\d+)*$", "", name)
             name = name.replace("github.com/pentops/j5/", "").replace("(*", "").replace(")", "")
             name = re.sub(r"\[\.\.\.\]", "", name)
